@@ -1,6 +1,7 @@
 package main
 
 import (
+	"sync"
 	stded "crypto/ed25519"
 	"math/rand"
 	"time"
@@ -11,6 +12,8 @@ import (
 	"github.com/go-i2p/crypto/kdf"
 	"go.step.sm/crypto/x25519"
 )
+
+var localZoneMu sync.Mutex
 
 func init() {
 	// EncDec: encrypt a parsed LeaseSet2 to a fresh recipient key, decrypt with the matching key, with a wrong key,
@@ -109,6 +112,15 @@ func init() {
 	// Blind: CreateBlindedDestination for a list of instants in given zones; the library's own check with the factor
 	// derived for the UTC day the specification computed, with another day's factor and with a random factor.
 	register("Blind", func(s *Session, a Args) Res {
+		// the process's local time zone must not matter: the specification may ask for one (time.Local is process-wide,
+		// so Blind ops are serialised while it is set)
+		if a.Has("localoffset") {
+			localZoneMu.Lock()
+			defer localZoneMu.Unlock()
+			saved := time.Local
+			time.Local = time.FixedZone("local", a.Int("localoffset"))
+			defer func() { time.Local = saved }()
+		}
 		rng := rand.New(rand.NewSource(s.Seed*271 + int64(a.Int("stream"))))
 		base := append([]byte{}, a.Bytes("in")...)
 		seed := make([]byte, 32)
